@@ -316,11 +316,13 @@ CbReturns == {"none", "one", "zero", "defer", "text"}
 \* the spot: it was never submitted - what the code does) or accepted, and then it is a command like any other, to be
 \* written, resolved by its reply and failed by a loss.  Recorded traces say which happened (field `acc` of a
 \* submission of kind "na"); the trace specification takes the corresponding branch.
-\* The caller of a plain command that is still waiting in the queue gives up on it (cancels its Deferred, or a
-\* timeout it put on it expires).  The command keeps its place: it is written when its turn comes and Tor's reply
-\* to it is consumed like any other - only nobody is told - so the commands behind it are not disturbed.
+\* The caller of a plain command that is still waiting in the queue - or already written and waiting for its reply -
+\* gives up on it (cancels its Deferred, or a timeout it put on it expires).  The command keeps its place: it is
+\* written when its turn comes, Tor's reply to it is consumed like any other - only nobody is told - and a loss
+\* clears it like any other, so the commands behind it and those submitted later are not disturbed.
 GiveUp(c) ==
-  /\ c \in SeqToSet(m.queue) /\ m.cmds[c].kind = "plain" /\ m.res[c].k = "p" /\ ~m.lost
+  /\ (c \in SeqToSet(m.queue) \/ c = m.command)      \* still queued, or written and waiting for its reply
+  /\ m.cmds[c].kind = "plain" /\ m.res[c].k = "p" /\ ~m.lost
   /\ m' = [Reset(m) EXCEPT !.res[c] = Out("gone", "", <<>>)]
   /\ cnt' = [cnt EXCEPT !.lop = @ + 1]
   /\ UNCHANGED <<pending, cur, replies, nline, nev, reg, exp, may>>
